@@ -88,6 +88,11 @@ func (e *Engine) verifyFunc(fn *ssa.Function) (u *Unit) {
 		}
 		params = append(params, &Val{t: n})
 		u.addValue(p.Name(), n)
+		if lk := lockInside(p.Type(), 0); lk != "" {
+			// a mutex passed by value is another mutex: what the callee locks excludes nobody who locks the original
+			u.oblige(fr.obName("lock-copy", p.Name()), "lock", []string{"C20"}, "true", "false", fr.pos(fn.Pos()),
+				"parameter "+p.Name()+" ("+types.TypeString(p.Type(), nil)+") carries "+lk+" by value: the function locks a copy")
+		}
 		if i == 0 && fn.Signature.Recv() != nil {
 			if _, ok := p.Type().Underlying().(*types.Pointer); ok {
 				// implicit precondition of every method: non-nil pointer receiver
@@ -136,7 +141,10 @@ func (e *Engine) verifyFunc(fn *ssa.Function) (u *Unit) {
 	if ct != nil {
 		for _, r := range ct.Requires {
 			if r.Fn == nil {
-				u.oblige(fr.obName("stale", r.Label), "stale", r.Tags, "true", "false", fr.pos(fn.Pos()), "stale precondition (no longer type-checks): "+r.Text+" -- "+e.broken[r.FnName])
+				// a clause that no longer type-checks against the code cannot be evaluated: undecided, not violated (noted in
+				// STALE-CONTRACTS and in the evidence); the body is verified without the assumption
+				u.staleClauses = append(u.staleClauses, fmt.Sprintf("%s: precondition %s -- %s", funcName(fn), r.Label, e.broken[r.FnName]))
+				u.preStale = true
 				continue
 			}
 			u.assume("true", fr.evalSpec(r, params, st, nil))
@@ -153,7 +161,7 @@ func (e *Engine) verifyFunc(fn *ssa.Function) (u *Unit) {
 				continue
 			}
 			if c.Fn == nil {
-				u.oblige(fr.obName("ensures", c.Label), "ensures", c.Tags, "true", "false", fr.pos(fn.Pos()), "stale clause (no longer type-checks against the code): "+c.Text+" -- "+e.broken[c.FnName])
+				u.staleClauses = append(u.staleClauses, fmt.Sprintf("%s: postcondition %s -- %s", funcName(fn), c.Label, e.broken[c.FnName]))
 				continue
 			}
 			if len(fr.rets) <= 1 || c.Merged {
@@ -182,10 +190,14 @@ func (e *Engine) verifyFunc(fn *ssa.Function) (u *Unit) {
 		}
 		for _, cl := range ct.Loops {
 			if cl.Fn == nil {
-				u.oblige(fr.obName("inv-init", fmt.Sprintf("loop%d.%s", cl.Loop, cl.Label)), "inv-init", cl.Tags, "true", "false", fr.pos(fn.Pos()), "stale invariant (no longer type-checks): "+cl.Text)
+				u.staleClauses = append(u.staleClauses, fmt.Sprintf("%s: invariant %s of loop %d -- %s", funcName(fn), cl.Label, cl.Loop, e.broken[cl.FnName]))
 			}
 		}
 		for _, cl := range ct.Asserts {
+			if cl.Fn == nil {
+				u.staleClauses = append(u.staleClauses, fmt.Sprintf("%s: assertion %s -- %s", funcName(fn), cl.Label, e.broken[cl.FnName]))
+				continue
+			}
 			if !u.assertsSeen[cl.Label] {
 				u.oblige(fr.obName("assert", cl.Label), "assert", cl.Tags, "true", "false", fr.pos(fn.Pos()),
 					"anchor call site not found: "+cl.Callee+" #"+fmt.Sprint(cl.Ordinal)+" -- "+cl.Text)
@@ -208,6 +220,30 @@ func (e *Engine) verifyFunc(fn *ssa.Function) (u *Unit) {
 		ob.Canary = true
 	}
 	return u
+}
+
+// lockInside: does a value of type t contain a sync.Mutex / sync.RWMutex (not behind a pointer)? Returns its description.
+func lockInside(t types.Type, depth int) string {
+	if depth > 6 {
+		return ""
+	}
+	if n, ok := t.(*types.Named); ok && n.Obj().Pkg() != nil && n.Obj().Pkg().Path() == "sync" {
+		switch n.Obj().Name() {
+		case "Mutex", "RWMutex":
+			return "a sync." + n.Obj().Name()
+		}
+	}
+	switch x := t.Underlying().(type) {
+	case *types.Struct:
+		for i := 0; i < x.NumFields(); i++ {
+			if s := lockInside(x.Field(i).Type(), depth+1); s != "" {
+				return s + " (field " + x.Field(i).Name() + ")"
+			}
+		}
+	case *types.Array:
+		return lockInside(x.Elem(), depth+1)
+	}
+	return ""
 }
 
 func (u *Unit) addValue(name, term string) {
@@ -239,41 +275,114 @@ func calleeLabel(fr *frame, c *ssa.CallCommon) []string {
 	return names
 }
 
+// anchorRoot: the frame whose contract's anchored assertions apply to the instructions of fr - fr itself when it is the
+// unit's function, and the unit's frame when fr is the body of a function without a contract inlined (at any depth)
+// into it. An anchor of the unit's contract that the unit's own body no longer contains is looked for in those inlined
+// bodies: moving a block into a new helper does not detach the assertion from the call or store it was written for.
+func (fr *frame) anchorRoot() *frame {
+	if fr.pure {
+		return nil
+	}
+	r := fr
+	for r.parent != nil {
+		r = r.parent
+	}
+	if r.depth != 0 || r.contract == nil || r.pure {
+		return nil
+	}
+	return r
+}
+
+// callArgTypes: the types of a call's arguments as an anchored clause sees them (receiver or function value first).
+func callArgTypes(c *ssa.CallCommon) []types.Type {
+	var ats []types.Type
+	if c.IsInvoke() {
+		ats = append(ats, c.Value.Type())
+	} else if c.StaticCallee() == nil {
+		if _, isB := c.Value.(*ssa.Builtin); !isB {
+			ats = append(ats, c.Value.Type())
+		}
+	}
+	for _, a := range c.Args {
+		ats = append(ats, a.Type())
+	}
+	return ats
+}
+
+// callSitesOf: the calls in fn's body that match an anchor name - and, when the clause names the call's arguments, whose
+// argument types are the ones the clause declares - in source order. (A call of another function that merely shares
+// the bare name, hex.EncodeToString beside (*base64.Encoding).EncodeToString, is not a site of the anchor.)
+func (fr *frame) callSitesOf(name string, cl *Clause, nparams int) []ssa.CallInstruction {
+	var sites []ssa.CallInstruction
+	for _, b := range fr.fn.Blocks {
+		for _, in := range b.Instrs {
+			if ci, ok := in.(ssa.CallInstruction); ok {
+				for _, l := range calleeLabel(fr, ci.Common()) {
+					if fr.u.eng.anchorNameIs(name, l) {
+						fit := true
+						if cl != nil && cl.Fn != nil {
+							need := len(cl.Fn.Params) - nparams - len(cl.VarNames)
+							ats := callArgTypes(ci.Common())
+							if need > len(ats) {
+								fit = false
+							}
+							for i := 0; fit && i < need; i++ {
+								pt := cl.Fn.Params[nparams+i].Type()
+								if !types.Identical(pt, ats[i]) && !types.AssignableTo(ats[i], pt) {
+									fit = false
+								}
+							}
+						}
+						if fit {
+							sites = append(sites, ci)
+						}
+						break
+					}
+				}
+			}
+		}
+	}
+	sort.Slice(sites, func(i, j int) bool { return sites[i].Pos() < sites[j].Pos() })
+	return sites
+}
+
+// anchorLocal resolves a `uses` local of an anchored assertion: in the frame of the anchor, then in the frames it is
+// inlined into (as of the inlined call).
+func (fr *frame) anchorLocal(name string, at ssa.Instruction, st *State) *Val {
+	for f, a := fr, at; f != nil && a != nil; f, a = f.parent, f.via {
+		if v := f.localNamed(name, a, st); v != nil {
+			return v
+		}
+	}
+	return nil
+}
+
 func (fr *frame) callSiteAsserts(call ssa.CallInstruction, args []*Val, st *State, reach string) {
-	if fr.depth != 0 || fr.contract == nil || fr.pure || len(fr.contract.Asserts) == 0 {
+	root := fr.anchorRoot()
+	if root == nil || len(root.contract.Asserts) == 0 {
 		return
 	}
 	c := call.Common()
 	labels := calleeLabel(fr, c)
-	for _, cl := range fr.contract.Asserts {
+	for _, cl := range root.contract.Asserts {
 		if cl.AtStore || cl.AtReturn {
 			continue
 		}
 		match := false
 		for _, l := range labels {
-			if l == cl.Callee {
+			if fr.u.eng.anchorNameIs(cl.Callee, l) {
 				match = true
 			}
 		}
 		if !match {
 			continue
 		}
+		if fr != root && len(root.callSitesOf(cl.Callee, cl, len(root.params))) > 0 {
+			continue // the unit's own body has the anchor
+		}
 		// ordinal among matching calls in source order
 		if cl.Ordinal > 0 {
-			var sites []ssa.CallInstruction
-			for _, b := range fr.fn.Blocks {
-				for _, in := range b.Instrs {
-					if ci, ok := in.(ssa.CallInstruction); ok {
-						for _, l := range calleeLabel(fr, ci.Common()) {
-							if l == cl.Callee {
-								sites = append(sites, ci)
-								break
-							}
-						}
-					}
-				}
-			}
-			sort.Slice(sites, func(i, j int) bool { return sites[i].Pos() < sites[j].Pos() })
+			sites := fr.callSitesOf(cl.Callee, cl, len(root.params))
 			if cl.Ordinal > len(sites) || sites[cl.Ordinal-1] != call {
 				continue
 			}
@@ -281,13 +390,31 @@ func (fr *frame) callSiteAsserts(call ssa.CallInstruction, args []*Val, st *Stat
 		if cl.Fn == nil {
 			continue
 		}
-		sargs := append([]*Val{}, fr.params...)
+		sargs := append([]*Val{}, root.params...)
 		need := len(cl.Fn.Params) - len(sargs) - len(cl.VarNames)
 		if need < 0 || need > len(args) {
 			fr.u.eng.stale = append(fr.u.eng.stale, "assert@call "+cl.Label+": parameter mismatch")
 			continue
 		}
-		sargs = append(sargs, args[:need]...)
+		picked := args[:need]
+		if f := c.StaticCallee(); f != nil && isRepoFunc(f) && len(f.Params) == len(args) && need > 0 {
+			// the clause's names for the call's arguments are the callee's own parameter names: bound by name, so that a
+			// re-ordering of the callee's parameters does not change what the assertion says
+			byName := map[string]*Val{}
+			for i, p := range f.Params {
+				byName[p.Name()] = args[i]
+			}
+			var named []*Val
+			for i := 0; i < need; i++ {
+				if v, ok := byName[cl.Fn.Params[len(root.params)+i].Name()]; ok {
+					named = append(named, v)
+				}
+			}
+			if len(named) == need {
+				picked = named
+			}
+		}
+		sargs = append(sargs, picked...)
 		if cl.Ordinal == 0 {
 			// "every occurrence" anchors apply only to calls whose argument types fit the clause
 			fit := true
@@ -303,7 +430,7 @@ func (fr *frame) callSiteAsserts(call ssa.CallInstruction, args []*Val, st *Stat
 				ats = append(ats, a.Type())
 			}
 			for i := 0; i < need && i < len(ats); i++ {
-				if !types.Identical(cl.Fn.Params[len(fr.params)+i].Type(), ats[i]) {
+				if !types.Identical(cl.Fn.Params[len(root.params)+i].Type(), ats[i]) {
 					fit = false
 				}
 			}
@@ -313,7 +440,7 @@ func (fr *frame) callSiteAsserts(call ssa.CallInstruction, args []*Val, st *Stat
 		}
 		okLocals := true
 		for j, name := range cl.VarLocal {
-			lv := fr.localNamed(name, call, st)
+			lv := fr.anchorLocal(name, call, st)
 			if lv == nil && len(sargs)+(len(cl.VarLocal)-j) == len(cl.Fn.Params) {
 				lv = fr.localByType(name, cl.Fn.Params[len(sargs)].Type(), call, st)
 			}
@@ -328,8 +455,11 @@ func (fr *frame) callSiteAsserts(call ssa.CallInstruction, args []*Val, st *Stat
 			continue
 		}
 		t := fr.evalSpec(cl, sargs, st, nil)
-		fr.u.oblige(fr.obName("assert", cl.Label), "assert", cl.Tags, reach, t, fr.pos(call.Pos()), cl.Text)
+		fr.u.oblige(root.obName("assert", cl.Label), "assert", cl.Tags, reach, t, fr.pos(call.Pos()), cl.Text)
 		fr.u.assertsSeen[cl.Label] = true
+		if fr != root {
+			fr.u.rebinds = append(fr.u.rebinds, fmt.Sprintf("%s: assertion %s anchored at the call of %s in %s (inlined: no contract of its own)", funcName(root.fn), cl.Label, cl.Callee, funcName(fr.fn)))
+		}
 		if cl.DeriveFn != nil {
 			// the premise has just been obliged; the derived ghost fact holds from here on
 			dc := &Clause{Fn: cl.DeriveFn, FnName: cl.DeriveFnName, Label: cl.Label}
@@ -598,7 +728,8 @@ func (u *Unit) emitAxioms(fr *frame, st *State) {
 
 // storeSiteAsserts: assert@store <field> #n ... anchored at the n-th (source order) store to a field of that name.
 func (fr *frame) storeSiteAsserts(x *ssa.Store, st *State, reach string) {
-	if fr.depth != 0 || fr.contract == nil || fr.pure {
+	root := fr.anchorRoot()
+	if root == nil {
 		return
 	}
 	fieldOf := func(s *ssa.Store) string {
@@ -616,25 +747,32 @@ func (fr *frame) storeSiteAsserts(x *ssa.Store, st *State, reach string) {
 	if name == "" {
 		return
 	}
-	for _, cl := range fr.contract.Asserts {
+	sitesIn := func(fn *ssa.Function) []*ssa.Store {
+		var sites []*ssa.Store
+		for _, b := range fn.Blocks {
+			for _, in := range b.Instrs {
+				if s, ok := in.(*ssa.Store); ok && fieldOf(s) == name {
+					sites = append(sites, s)
+				}
+			}
+		}
+		sort.Slice(sites, func(i, j int) bool { return sites[i].Pos() < sites[j].Pos() })
+		return sites
+	}
+	for _, cl := range root.contract.Asserts {
 		if !cl.AtStore || cl.AtReturn || cl.Callee != name || cl.Fn == nil {
 			continue
 		}
+		if fr != root && len(sitesIn(root.fn)) > 0 {
+			continue // the unit's own body has the anchor
+		}
 		if cl.Ordinal > 0 {
-			var sites []*ssa.Store
-			for _, b := range fr.fn.Blocks {
-				for _, in := range b.Instrs {
-					if s, ok := in.(*ssa.Store); ok && fieldOf(s) == name {
-						sites = append(sites, s)
-					}
-				}
-			}
-			sort.Slice(sites, func(i, j int) bool { return sites[i].Pos() < sites[j].Pos() })
+			sites := sitesIn(fr.fn)
 			if cl.Ordinal > len(sites) || sites[cl.Ordinal-1] != x {
 				continue
 			}
 		}
-		sargs := append([]*Val{}, fr.params...)
+		sargs := append([]*Val{}, root.params...)
 		need := len(cl.Fn.Params) - len(sargs) - len(cl.VarNames)
 		if need == 1 {
 			sargs = append(sargs, fr.valOf(x.Val))
@@ -644,7 +782,7 @@ func (fr *frame) storeSiteAsserts(x *ssa.Store, st *State, reach string) {
 		}
 		ok := true
 		for j, ln := range cl.VarLocal {
-			lv := fr.localNamed(ln, x, st)
+			lv := fr.anchorLocal(ln, x, st)
 			if lv == nil && len(sargs)+(len(cl.VarLocal)-j) == len(cl.Fn.Params) {
 				lv = fr.localByType(ln, cl.Fn.Params[len(sargs)].Type(), x, st)
 			}
@@ -659,8 +797,11 @@ func (fr *frame) storeSiteAsserts(x *ssa.Store, st *State, reach string) {
 			continue
 		}
 		t := fr.evalSpec(cl, sargs, st, nil)
-		fr.u.oblige(fr.obName("assert", cl.Label), "assert", cl.Tags, reach, t, fr.pos(x.Pos()), cl.Text)
+		fr.u.oblige(root.obName("assert", cl.Label), "assert", cl.Tags, reach, t, fr.pos(x.Pos()), cl.Text)
 		fr.u.assertsSeen[cl.Label] = true
+		if fr != root {
+			fr.u.rebinds = append(fr.u.rebinds, fmt.Sprintf("%s: assertion %s anchored at the store to %s in %s (inlined: no contract of its own)", funcName(root.fn), cl.Label, name, funcName(fr.fn)))
+		}
 	}
 }
 
